@@ -40,7 +40,7 @@ TplQuick == {
   [t |-> "include", file |-> "a", lines |-> 1], [t |-> "include", file |-> "b", lines |-> 1],
   [t |-> "include", file |-> "nofile", lines |-> 1], [t |-> "include", file |-> "p", lines |-> 1], [t |-> "syntax", lines |-> 1] }
 \* the include-heavy family: overriding bindings around (repeated) includes
-TplDiamond == { B("", "f", "p", L("1")), B("", "f", "p", L("2")), B("a", "f", "p", L("1")),
+TplDiamond == { B("", "f", "p", L("1")), B("", "f", "p", L("2")), B("a", "f", "p", L("1")), [t |-> "import", module |-> "gvmod_ok", lines |-> 1],
   [t |-> "include", file |-> "a", lines |-> 1], [t |-> "include", file |-> "b", lines |-> 1] }
 Amb == {"h"}
 SkipFalse == { [mode |-> "false", names |-> {}] }
@@ -55,7 +55,8 @@ RegLogsAll == { <<"L1", "L2">>, <<"L2", "L1">>, <<"L1", "L2", "L1">>, <<"L2", "L
 EForm(fs, b, fin) == [files |-> fs, bindings |-> b, finalize |-> fin]
 Entries == << EForm(<<"root", "a">>, "one", TRUE), EForm(<<>>, "none", TRUE), EForm(<<"root">>, "emptylist", FALSE),
               EForm(<<>>, "emptystr", TRUE), EForm(<<"a", "root">>, "none", TRUE), EForm(<<>>, "one", FALSE),
-              EForm(<<"root">>, "emptystr", TRUE), EForm(<<>>, "emptylist", TRUE) >>
+              EForm(<<"root">>, "emptystr", TRUE), EForm(<<>>, "emptylist", TRUE),
+              EForm(<<"root", "nofile", "a">>, "one", TRUE) >>            \* a file that cannot be read, not the first one
 EntryB == B("", "g", "p", L("from-bindings"))
 Rdrs == <<"r1", "pkg", "r2">>        \* open(), the Python-path resource reader, a custom reader
 \* root in the current directory; a and b placed so that order matters
